@@ -155,6 +155,10 @@ func e2eCLI(model map[string]interface{}) (bool, string) {
 	}
 	// a run that fails LATE (the generated code does not format), over an absent and a present output
 	scenarios = append(scenarios, scenario{"latefail", false, false}, scenario{"latefail", false, true})
+	// a run whose input file does not exist (a failure that never passes through the logger)
+	if kind != "missing" {
+		scenarios = append(scenarios, scenario{"missing", false, false})
+	}
 	for si, sc := range scenarios {
 		kind, withOut := sc.kind, sc.withOut
 		dir := filepath.Join(tmp, fmt.Sprintf("m%d", si))
@@ -214,6 +218,9 @@ func e2eCLI(model map[string]interface{}) (bool, string) {
 		}
 		if exit != wantExit {
 			dev("exit status %d, expected %d; stderr: %s", exit, wantExit, clip(stderr.String(), 300))
+		}
+		if exit != 0 && strings.TrimSpace(stderr.String()) == "" {
+			dev("exit status %d with nothing on standard error (flags %v, input kind %s)", exit, args, kind)
 		}
 		logName := strings.TrimSuffix(outName, filepath.Ext(outName)) + ".log"
 		allowed := map[string]bool{}
